@@ -58,6 +58,10 @@ THEOREMS = [
     "IrVerif.Names.C15_gen_nonempty_necessary",
     "IrVerif.Names.C15_gen_total_needs_scoping",
     "IrVerif.Names.C15_scoping_necessary",
+    "IrVerif.Names.C15_gen_post",
+    "IrVerif.Names.C15_gen_untouched",
+    "IrVerif.Names.C15_gen_default_raises_only_on_refusal",
+    "IrVerif.Names.C15_illscoped_nodes",
 ]
 ASSUMPTIONS = [
     "Python set/dict membership, dict insertion order and f-string decimal printing of int are modelled by list "
@@ -67,10 +71,15 @@ ASSUMPTIONS = [
     "too; the harness records the answers of the real generator object, runs the model on the recorded table and "
     "requires the model's sequence of generator calls to be the recorded one; generators that raise or answer a "
     "non-str are outside the typed model",
-    "for custom generators the postcondition (non-empty, unique per scope, first holder keeps) is checked by the oracle "
-    "and the model/implementation comparison, not proved; proved for every generator: freshness of every naming step, "
-    "I_key preservation, tensor write-through, in every outcome (C15_gen_*); the default generator's theorems apply "
-    "to the general model through C15_gen_refines_default",
+    "for custom generators the full postcondition (no exception, non-empty, unique per scope, unique names kept, first "
+    "holder keeps; values and nodes) is proved (C15_gen_post) under: the generator never answers '' (NameGen.NonEmpty, "
+    "decided by the driver on the recorded answer table), PassWF (the scoping rule included: necessary for a custom "
+    "generator even for 'does not raise'), no tensor that backs a value refuses a name; the driver evaluates the "
+    "hypotheses and the conclusion on every names.fixx case (x_gen_post_hyp); proved for every generator, every scoping "
+    "and every outcome: freshness of every naming step, I_key preservation, tensor write-through, objects the generator "
+    "was never asked about are untouched (C15_gen_untouched); the default generator's theorems apply to the general "
+    "model through C15_gen_refines_default, and the default generator raises only because of a refusing backing tensor "
+    "(C15_gen_default_raises_only_on_refusal)",
     "NameFixPass / rename_values theorems assume InitsOk (initializer dictionaries keyed by the current non-empty "
     "names: kernel invariant I_key, property C01) of the INPUT only; its preservation is proved (C15_namefix_total, "
     "C15_gen_ikey_preserved: every generator, refusing tensors, also when the pass raises); "
@@ -87,10 +96,49 @@ ASSUMPTIONS = [
     "it is checked by the oracle (identity snapshot of graphs, nodes, values, uses, attributes, backing tensors)",
     "backing tensors are modelled for rename_values (shared tensors, tensors refusing a name, rollback) and for "
     "NameFixPass (write-through inside Value.name=, shared tensors, a refusing tensor stops the pass in the middle: "
-    "names.fixx); 'a tensor none of whose values was renamed keeps its name' is checked by the oracle and the "
-    "comparison only; values that have a producer and are registered as initializers are not modelled",
+    "names.fixx); 'a tensor none of whose values was handed to the generator keeps its name' is a theorem "
+    "(C15_gen_untouched) whose conclusion the driver evaluates on every case and the oracle checks on the real objects; "
+    "values that have a producer and are registered as initializers are not modelled",
     "TypeError paths of rename_values (non-Value / non-str arguments, length mismatch) are outside the typed model",
 ]
+
+
+
+class _Timeout(BaseException):
+    """a call of the implementation did not return within the CPU / wall-clock guard (not an Exception: neither the
+    code under test nor an `except Exception` of the harness may swallow it)"""
+
+
+_ITEM_CPU_S = float(__import__("os").environ.get("C15_ITEM_CPU_S", "20"))    # one item takes milliseconds
+_ITEM_WALL_S = float(__import__("os").environ.get("C15_ITEM_WALL_S", "600"))  # a blocked (not spinning) call
+
+
+@__import__("contextlib").contextmanager
+def _guard():
+    """CPU-time and wall-clock interval timers around one item of a stream: a naming loop of a modified implementation
+    that does not terminate becomes a `nontermination:*` failure instead of a hanging check.  Not re-entrant."""
+    import signal
+    import threading
+
+    if threading.current_thread() is not threading.main_thread():
+        yield
+        return
+
+    def _h(signum, frame):
+        raise _Timeout("CPU guard" if signum == signal.SIGVTALRM else "wall-clock guard")
+
+    old_v = signal.signal(signal.SIGVTALRM, _h)
+    old_r = signal.signal(signal.SIGALRM, _h)
+    signal.setitimer(signal.ITIMER_VIRTUAL, _ITEM_CPU_S)
+    signal.setitimer(signal.ITIMER_REAL, _ITEM_WALL_S)
+    try:
+        yield
+    finally:
+        signal.setitimer(signal.ITIMER_VIRTUAL, 0)
+        signal.setitimer(signal.ITIMER_REAL, 0)
+        signal.signal(signal.SIGVTALRM, old_v)
+        signal.signal(signal.SIGALRM, old_r)
+
 
 OPS = ["Add", "Mul", "Add_1", ""]
 VAL_POOL = [f"val_{k}" for k in range(6)] + ["x", "y", "", "val_01", "val_10"]
@@ -383,11 +431,11 @@ def _node_spec(rng, nvals=0):
             "outs": [_pick_name(rng, VAL_POOL) for _ in range(rng.choice([0, 1, 1, 1, 2, 3]))]}
 
 
-def _one_history(ctx: Ctx, ir, size: int):
+def _one_history(ctx: Ctx, ir, size: int, script=None):
     """generate a script step by step (choices depend only on the sizes of the tracked lists)"""
     rng = ctx.rng
     ex = _Exec(ir)
-    script = []
+    script = [] if script is None else script
 
     def do(op):
         script.append(op)
@@ -521,8 +569,17 @@ def _check_authority_case(ctx, ex, script, out, out_hist=None):
 
 def _replay_authority(ctx, ir, script):
     ex = _Exec(ir)
-    for op in script:
-        ex.step(op)
+    try:
+        with _guard():
+            for op in script:
+                ex.step(op)
+    except _Timeout as e:
+        ctx.fail("nontermination:authority", f"a graph / name-authority call did not return ({e})", {"part": "authority", "script": script})
+        return
+    except Exception as e:  # noqa: BLE001
+        ctx.disagree(f"authority: the implementation raised {type(e).__name__} where the harness expects none",
+                     {"part": "authority", "script": script}, None, repr(e)[:200])
+        return
     out, out_hist = lean_batch_parallel([ex.request(), {"m": "names.hist", "ops": _hist_ops(ex)}])
     _check_authority_case(ctx, ex, script, out, out_hist)
 
@@ -570,12 +627,22 @@ def _run_authority(ctx: Ctx, ir) -> None:
     runs = []
     for i in range(ctx.pick(1500, 20000)):
         size = ctx.rng.choice([2, 4, 8, 16]) if i % 10 else 40
-        ex, script = _one_history(ctx, ir, size)
+        script = []
+        try:
+            with _guard():
+                ex, script = _one_history(ctx, ir, size, script)
+                ex2 = _clone_case(ctx, ir, ex, script) if i % 7 == 0 else None
+        except _Timeout as e:
+            ctx.fail("nontermination:authority", f"a graph / name-authority call did not return ({e})",
+                     {"part": "authority", "script": script})
+            continue
+        except Exception as e:  # noqa: BLE001 - the harness' stubs met an implementation that behaves differently
+            ctx.disagree(f"authority: the implementation raised {type(e).__name__} where the harness expects none",
+                         {"part": "authority", "script": script}, None, repr(e)[:200])
+            continue
         runs.append((ex, script))
-        if i % 7 == 0:
-            ex2 = _clone_case(ctx, ir, ex, script)
-            if ex2 is not None:
-                runs.append((ex2, script + [["clone+2 appends"]]))
+        if ex2 is not None:
+            runs.append((ex2, script + [["clone+2 appends"]]))
     reqs = []
     for ex, _ in runs:
         reqs += [ex.request(), {"m": "names.hist", "ops": _hist_ops(ex)}]
@@ -683,11 +750,11 @@ class _SpecGen:
         self.built_graphs.append(res)
         return res
 
-    def spec(self, n_nodes=None):
+    def spec(self, n_nodes=None, n_funcs=None, func_nodes=None):
         rng = self.rng
         tops = [self.graph(0, [], [], n_nodes)]
-        for _ in range(rng.choice([0, 0, 1, 2])):
-            tops.append(self.graph(0, [], []))  # a function: its underlying graph may hold initializers too
+        for _ in range(rng.choice([0, 0, 1, 2]) if n_funcs is None else n_funcs):
+            tops.append(self.graph(0, [], [], func_nodes))  # a function: its underlying graph may hold initializers too
         self.built_graphs = []
         return {"vnames": self.vnames, "nnames": self.nnames, "initOf": self.init_of, "dicts": self.dicts, "tops": tops}
 
@@ -1027,7 +1094,11 @@ def _run_one_fix(ir, spec):
 def _check_fix_case(ctx, ir, spec, out, origin):
     case = {"part": "namefix", "spec": spec}
     try:
-        before, after, sb, sa, raised, modified, second = _run_one_fix(ir, spec)
+        with _guard():
+            before, after, sb, sa, raised, modified, second = _run_one_fix(ir, spec)
+    except _Timeout as e:
+        ctx.fail("nontermination:NameFixPass", f"NameFixPass did not return ({e})", case)
+        return
     except Exception as e:  # the spec cannot be built as real IR (rejected by constructors)
         ctx.count(f"namefix_unbuildable={type(e).__name__}")
         return
@@ -1038,14 +1109,22 @@ def _check_fix_case(ctx, ir, spec, out, origin):
     fails, scoped, well_owned = _namefix_oracle(ctx, spec, before, after, sb, sa, raised, second, case)
     changed = sum(1 for a, b2 in zip(before["vnames"] + before["nnames"], after["vnames"] + after["nnames"]) if a != b2)
     depth = _depth(spec)
+    # how many top-level scopes (main graph, functions) need a fix according to the MODEL (not the implementation)
+    need = _tops_needing_fix(spec, out)
     ctx.case(case, nontrivial=changed > 0,
              sample={"part": "namefix", "vnames": spec["vnames"], "nnames": spec["nnames"], "after": after["vnames"]},
              part="namefix", origin=origin, scoped=scoped, well_owned=well_owned, depth=depth, tops=len(spec["tops"]),
              nested_inits=any(d for d in spec["dicts"][1:]), forward_ref=_has_forward(spec),
              values=min(len(spec["vnames"]) // 4 * 4, 24), renamed=min(changed, 8),
-             inits=min(sum(len(d) for d in spec["dicts"]), 6))
+             inits=min(sum(len(d) for d in spec["dicts"]), 6), scopes_fixed=min(sum(need), 4),
+             funcs_fixed=min(sum(need[1:]), 3), later_func_fixed=bool(len(need) > 2 and any(need[:-1]) and need[-1]))
     for sig, what in fails:
         ctx.fail(sig, what, case)
+    # C15_illscoped_nodes: no scoping rule - hypotheses and conclusion evaluated by the driver
+    if out.get("initsOk") and out.get("closed") and out.get("nodup") and out.get("nodeDisjoint"):
+        ctx.count("namefix_illscoped_nodes_hyp=" + str(not (out.get("scoped") and out.get("disjoint"))))
+        if not out.get("nodesPost"):
+            ctx.disagree("C15_illscoped_nodes contradicted by the driver", case, out, None)
     # the hypotheses of the Lean theorems (evaluated by the driver) against their Python restatement
     if raised is None and (out.get("scoped") and out.get("disjoint")) != scoped:
         ctx.disagree("scoping rule: scopedB/disjoint (Lean) != Python restatement", case,
@@ -1065,6 +1144,29 @@ def _check_fix_case(ctx, ir, spec, out, origin):
         model["modified"] = impl["modified"] = None
     if model != impl and not fails:
         ctx.disagree("names.fix model != NameFixPass", case, model, impl)
+
+
+def _tops_needing_fix(spec, out):
+    """per top-level graph / function: does the model change a name of a value or node under it"""
+    vn, nn = out.get("vnames") or spec["vnames"], out.get("nnames") or spec["nnames"]
+    res = []
+    for t in spec["tops"]:
+        vals, nodes, done = set(), set(), set()
+
+        def walk(g):
+            if g["g"] in done:
+                return
+            done.add(g["g"])
+            vals.update(g["ins"] + g["outs"] + [v for _, v in spec["dicts"][g["g"]]])
+            for n in g["nodes"]:
+                nodes.add(n["n"])
+                vals.update(v for v in n["ins"] + n["outs"] if v is not None)
+                for sub in _subgraphs(n):
+                    walk(sub)
+
+        walk(t)
+        res.append(any(vn[v] != spec["vnames"][v] for v in vals) or any(nn[n] != spec["nnames"][n] for n in nodes))
+    return res
 
 
 def _depth(spec):
@@ -1096,6 +1198,11 @@ def _has_forward(spec):
     return any(v in order and order[v] >= pos for pos, v in uses)
 
 
+# main graph + two functions, each with a duplicated value name, a duplicated node name and missing names
+MULTI_SPEC = {"vnames": ["t", "t", None, "t", "t", None, "t", "t", None], "nnames": ["n", "n", None, "n", "n", None, "n", "n", None],
+              "initOf": [None] * 9, "dicts": [[], [], []],
+              "tops": [{"g": g, "isGraph": True, "ins": [], "outs": [], "nodes": [
+                  {"n": 3 * g + k, "ins": [], "outs": [3 * g + k], "attrs": []} for k in range(3)]} for g in range(3)]}
 D30_SPEC = {"vnames": ["w", "w", "w_1"], "nnames": ["a"], "initOf": [None, 0, 0], "dicts": [[["w", 1], ["w_1", 2]]],
             "tops": [{"g": 0, "isGraph": True, "ins": [], "outs": [0], "nodes": [{"n": 0, "ins": [], "outs": [0], "attrs": []}]}]}
 D31_SPEC = {"vnames": ["t", "t", "t_1"], "nnames": ["n", "n", "n_1"], "initOf": [None, None, None], "dicts": [[]],
@@ -1135,13 +1242,18 @@ def _custom_generator_case(ctx, ir, spec):
         return
     before, sb = b.state(), b.structure()
     raised = None
+    case = {"part": "namefix-custom-generator", "spec": spec}
     try:
-        naming.NameFixPass(name_generator=Gen())(b.model)
-    except Exception as e:  # noqa: BLE001
-        raised = type(e).__name__
+        with _guard():
+            try:
+                naming.NameFixPass(name_generator=Gen())(b.model)
+            except Exception as e:  # noqa: BLE001
+                raised = type(e).__name__
+    except _Timeout as e:
+        ctx.fail("nontermination:NameFixPass(custom generator)", f"NameFixPass did not return ({e})", case)
+        return
     after, sa = b.state(), b.structure()
     after["const_ok"] = b.const_names_ok()
-    case = {"part": "namefix-custom-generator", "spec": spec}
     fails, scoped, _ = _namefix_oracle(ctx, spec, before, after, sb, sa, raised, None, case)
     ctx.case(case, nontrivial=True, part="namefix-custom-generator", scoped=scoped)
     for sig, what in fails:
@@ -1222,7 +1334,7 @@ def _run_one_x(ir, xspec, kind):
     return b, gen, before, after, struct_before, struct_after, tbefore, b.tnames(), raised, modified
 
 
-def _x_oracle(spec, kind, before, after, tbefore, tafter, raised):
+def _x_oracle(spec, kind, before, after, tbefore, tafter, raised, calls=()):
     """independent of the model, in EVERY outcome (also when the pass raised in the middle): initializers keyed by
     their current names, same values, same flags; an unshared backing tensor that carried its value's name still
     does; a tensor none of whose values was renamed keeps its name"""
@@ -1242,6 +1354,18 @@ def _x_oracle(spec, kind, before, after, tbefore, tafter, raised):
             fails.append(("NameFixPass(x):const-tensor-touched", f"tensor {t} renamed although none of its values was"))
         if tafter[t] != tbefore[t] and not any(vn[i] == tafter[t] and vn[i] != before["vnames"][i] for i in users):
             fails.append(("NameFixPass(x):const-tensor-stray", f"tensor {t} carries a name that is not the new name of one of its values"))
+    # C15_gen_untouched on the real objects: what the generator was never asked about is untouched
+    asked_v = {i for is_node, i, _ in calls if not is_node}
+    asked_n = {i for is_node, i, _ in calls if is_node}
+    for i, (a, b) in enumerate(zip(before["vnames"], vn)):
+        if a != b and i not in asked_v:
+            fails.append(("NameFixPass(x):renamed-without-asking-generator", f"value {i}: {a!r} -> {b!r}"))
+    for i, (a, b) in enumerate(zip(before["nnames"], after["nnames"])):
+        if a != b and i not in asked_n:
+            fails.append(("NameFixPass(x):renamed-without-asking-generator", f"node {i}: {a!r} -> {b!r}"))
+    for t in range(len(tbefore)):
+        if tafter[t] != tbefore[t] and not any(c == t and i in asked_v for i, c in enumerate(const_of)):
+            fails.append(("NameFixPass(x):untouched-tensor-renamed", f"tensor {t}: none of its values was handed to the generator"))
     return fails
 
 
@@ -1267,7 +1391,12 @@ def _exec_x_runs(ctx: Ctx, ir, runs) -> None:
     results, reqs = [], []
     for xs, kind, origin, mode in runs:
         try:
-            res = _run_one_x(ir, xs, kind)
+            with _guard():
+                res = _run_one_x(ir, xs, kind)
+        except _Timeout as e:
+            ctx.fail(f"nontermination:NameFixPass(gen={kind})", f"NameFixPass did not return ({e})",
+                     {"part": "namefix-x", "spec": xs, "gen": kind})
+            continue
         except Exception as e:  # the spec cannot be built as real IR
             ctx.count(f"namefix_x_unbuildable={type(e).__name__}")
             continue
@@ -1304,13 +1433,15 @@ def _exec_x_runs(ctx: Ctx, ir, runs) -> None:
         xs, kind, origin, mode, (b, gen, before, after, sb, sa, tb, ta, raised, modified) = item
         case = {"part": "namefix-x", "spec": xs, "gen": kind}
         froze = raised == "RuntimeError"
-        fails = _x_oracle(xs, kind, before, after, tb, ta, raised)
+        fails = _x_oracle(xs, kind, before, after, tb, ta, raised, gen.calls)
+        # hypotheses of C15_gen_post as evaluated by the driver (generator table, PassWF, no refusing backing tensor)
+        hyp = bool(out.get("genNonEmpty") and out.get("passWF") and out.get("noFz"))
+        backing_frozen = any(c is not None and c in xs["frozen"] for c in xs["constOf"])
         scoped = well_owned = None
         if raised is None and kind != "empty":
             after2 = dict(after)
             f2, scoped, well_owned = _namefix_oracle(ctx, xs, before, after2, sb, sa, None, None, case)
-            fails += [(sig.replace("NameFixPass:", f"NameFixPass(gen={kind}):"), what) for sig, what in f2
-                      if kind == "simple" or "unique-" not in sig]
+            fails += [(sig.replace("NameFixPass:", f"NameFixPass(gen={kind}):"), what) for sig, what in f2]
         elif raised is not None and not froze and kind != "empty":
             wo, _ = _ownership(xs, after["dicts"])
             if kind == "simple" or wo:
@@ -1318,6 +1449,11 @@ def _exec_x_runs(ctx: Ctx, ir, runs) -> None:
                     fails.append((f"NameFixPass(gen={kind}):raises:{raised}", "raised without a refusing tensor on a well-owned model"))
             else:
                 ctx.count("namefix_x_custom_gen_raise_ill_owned")
+        if raised is not None and hyp and not any(s.startswith(f"NameFixPass(gen={kind}):raises") for s, _ in fails):
+            fails.append((f"NameFixPass(gen={kind}):raises:{raised}", "raised under the hypotheses of C15_gen_post"))
+        if raised is not None and kind == "simple" and not backing_frozen and _closed(xs) \
+                and not any(s.startswith("NameFixPass(gen=simple):raises") for s, _ in fails):
+            fails.append((f"NameFixPass(gen=simple):raises:{raised}", "the default generator raised without a refusing backing tensor"))
         if sb != sa:
             fails.append(("NameFixPass(x):structure-changed", "something other than names / initializer keys / tensor names changed"))
         changed = sum(1 for a, c in zip(before["vnames"] + before["nnames"], after["vnames"] + after["nnames"]) if a != c)
@@ -1327,7 +1463,17 @@ def _exec_x_runs(ctx: Ctx, ir, runs) -> None:
                  part="namefix-x", gen=kind, x_tensors=mode, x_shared=shared, x_raised=raised or "no",
                  x_gen_calls=min(len(gen.calls), 6), x_initsOk=out.get("initsOk"), x_tensor_renamed=tb != ta,
                  x_model_raised=bool(out.get("raised")), x_frozen=bool(xs["frozen"]),
-                 x_model_tensor_renamed=out.get("tnames") != xs["tnames"])
+                 x_model_tensor_renamed=out.get("tnames") != xs["tnames"], x_gen_post_hyp=hyp,
+                 x_gen_nonempty=bool(out.get("genNonEmpty")), x_passWF=bool(out.get("passWF")), x_noFz=bool(out.get("noFz")),
+                 x_untouched_tensor=any(a == b2 for a, b2 in zip(out.get("tnames") or [], xs["tnames"])))
+        if hyp and kind != "simple":
+            ctx.count("x_gen_post_custom")
+        if hyp and not out.get("postOk"):
+            ctx.disagree("C15_gen_post contradicted by the driver", case, out, None)
+        if not out.get("untouched"):
+            ctx.disagree("C15_gen_untouched contradicted by the driver", case, out, None)
+        if kind == "simple" and out.get("initsOk") and out.get("closed") and out.get("raised") and not backing_frozen:
+            ctx.disagree("C15_gen_default_raises_only_on_refusal contradicted by the driver", case, out, None)
         for sig, what in fails:
             ctx.fail(sig, what, case)
         if not out.get("initsOk"):
@@ -1366,7 +1512,7 @@ XRAISE_SPEC = {"vnames": ["k1", "k1", "k2", "k2", "o"], "nnames": ["A", "I1", "I
 
 
 def _run_namefix(ctx: Ctx, ir) -> None:
-    specs = [(D30_SPEC, "witness"), (D31_SPEC, "witness"), (D221_SPEC, "witness"), (E3_SPEC, "witness")]
+    specs = [(D30_SPEC, "witness"), (D31_SPEC, "witness"), (D221_SPEC, "witness"), (E3_SPEC, "witness"), (MULTI_SPEC, "witness")]
     for c in load_corpus("C15"):
         if c.get("part") == "namefix":
             specs.append((c["spec"], "corpus"))
@@ -1383,6 +1529,11 @@ def _run_namefix(ctx: Ctx, ir) -> None:
                           "many-duplicates"))
         elif i % 50 == 4:
             specs.append((_SpecGen(rng, depth, wild=0.0, fwd=0.1, vpool=UNICODE_V, npool=UNICODE_N).spec(), "non-ascii"))
+        elif i % 25 == 8:
+            # every top-level scope needs fixes: the main graph and 2-3 functions full of duplicates / missing names
+            specs.append((_SpecGen(rng, min(depth, 1), wild=0.0, vpool=["t", "t", "t", None, None, "u", "u"],
+                                   npool=["n", "n", None, None, "m", "m"]).spec(n_nodes=rng.choice([2, 3]), n_funcs=rng.choice([2, 2, 3]),
+                                                                             func_nodes=rng.choice([2, 3])), "multi-scope"))
         else:
             specs.append((_SpecGen(rng, depth, wild=0.0).spec(), "random"))
     outs = lean_batch_parallel([_fix_request(s) for s, _ in specs])
@@ -1390,7 +1541,7 @@ def _run_namefix(ctx: Ctx, ir) -> None:
         _check_fix_case(ctx, ir, spec, out, origin)
     for spec, origin in specs[: ctx.pick(300, 3000)]:
         _custom_generator_case(ctx, ir, spec)
-    _run_namefix_x(ctx, ir, specs[4:])
+    _run_namefix_x(ctx, ir, specs[5:])
 
 
 # --------------------------------------------------------------------------- part C (rename_values)
@@ -1413,7 +1564,7 @@ class _FrozenTensor:
         raise RuntimeError("this tensor's name is read-only")
 
 
-def _rename_world(ir, kinds, names, tensors=None, frozen=()):
+def _rename_world(ir, kinds, names, tensors=None, frozen=(), tnames=None):
     """A real two-graph world: value i has kind kinds[i] and name names[i]; tensors[i] = index of its backing
     tensor (shared when equal) or None; `frozen` = tensor indices that refuse a new name."""
     if tensors is None:  # every initializer has its own backing tensor
@@ -1424,7 +1575,8 @@ def _rename_world(ir, kinds, names, tensors=None, frozen=()):
     tobjs = {}
     for i, t in enumerate(tensors):
         if t is not None and t not in tobjs:
-            tobjs[t] = _FrozenTensor(names[i]) if t in frozen else ir.tensor([1.0], name=names[i])
+            tn = tnames[t] if tnames and t < len(tnames) and tnames[t] is not None else names[i]  # may be out of sync
+            tobjs[t] = _FrozenTensor(tn) if t in frozen else ir.tensor([1.0], name=tn)
     values = [ir.Value(name=n, const_value=None if t is None else tobjs[t]) for n, t in zip(names, tensors)]
     plain = [v for v, k in zip(values, kinds) if k == "plain"]
     node = ir.Node("", "Op", [], outputs=plain, name="n")
@@ -1490,24 +1642,57 @@ def _rename_cases(ctx):
             case["tensors"] = [rng.randrange(nt) if (k not in ("plain", "free") or (nm is not None and rng.random() < 0.4)) else None
                                for k, nm in zip(kinds, names)]
             case["frozen"] = [t for t in range(nt) if rng.random() < 0.25]
+            if rng.random() < 0.35:  # tensors whose names are out of sync with their values (const_value= does not rename)
+                case["tnames"] = [rng.choice([None, "a", "b", "c", "d", "z", "e"]) for _ in range(nt)]
         if len(pairs) == 1 and rng.random() < 0.5:
             case["scalar"] = True  # rename_values(value, "name") with non-sequence arguments
         yield case, "random"
+    # rename sets with a LATER value whose read-only tensor already carries the value's target name (value and tensor
+    # out of sync): the refusal must still surface in the undoable phase, before anything is touched
+    for _ in range(ctx.pick(300, 3000)):
+        n = rng.choice([2, 3, 4])
+        kinds = [rng.choice(["init0", "init0", "init1", "plain", "input+init0"]) for _ in range(n)]
+        names = ["a", "b", "c", "d"][:n]
+        order = list(range(n))
+        rng.shuffle(order)
+        k = rng.randrange(1, n)          # position (>= 1) of the pair with the refusing tensor
+        targets = {}
+        perm = names[:]                  # swaps / cycles among the earlier pairs, a fresh target for the refusing one
+        rng.shuffle(perm)
+        for pos, i in enumerate(order):
+            targets[i] = "z" if pos == k else (perm[i] if rng.random() < 0.7 else rng.choice(["e", "f"]) + str(pos))
+        victim = order[k]
+        tensors = list(range(n))
+        if kinds[victim] == "plain" and rng.random() < 0.5:
+            kinds[victim] = "init0"
+        tn = [names[i] for i in range(n)]
+        tn[victim] = "z"                 # the refusing tensor already carries the target; its value does not
+        yield {"kinds": kinds, "names": names, "pairs": [[i, targets[i]] for i in order], "tensors": tensors,
+               "frozen": [victim], "tnames": tn}, "desync-frozen"
 
 
 def _check_rename_case(ctx, ir, c, origin, out):
     kinds, names, pairs = c["kinds"], c["names"], c["pairs"]
     case = dict(c, part="rename")
-    values, graphs, tlist, const_of, frozen = _rename_world(ir, kinds, names, c.get("tensors"), c.get("frozen", ()))
+    try:
+        values, graphs, tlist, const_of, frozen = _rename_world(ir, kinds, names, c.get("tensors"), c.get("frozen", ()), c.get("tnames"))
+    except Exception as e:  # noqa: BLE001
+        ctx.count(f"rename_unbuildable={type(e).__name__}")
+        return
     before = _rename_state(values, graphs, tlist)
     raised = None
     try:
-        if c.get("scalar"):
-            ir.convenience.rename_values(values[pairs[0][0]], pairs[0][1])
-        else:
-            ir.convenience.rename_values([values[i] for i, _ in pairs], [t for _, t in pairs])
-    except Exception as e:  # noqa: BLE001
-        raised = type(e).__name__
+        with _guard():
+            try:
+                if c.get("scalar"):
+                    ir.convenience.rename_values(values[pairs[0][0]], pairs[0][1])
+                else:
+                    ir.convenience.rename_values([values[i] for i, _ in pairs], [t for _, t in pairs])
+            except Exception as e:  # noqa: BLE001
+                raised = type(e).__name__
+    except _Timeout as e:
+        ctx.fail("nontermination:rename_values", f"rename_values did not return ({e})", case)
+        return
     after = _rename_state(values, graphs, tlist)
     fails = []
     if raised is not None:
@@ -1535,7 +1720,12 @@ def _check_rename_case(ctx, ir, c, origin, out):
              n_values=len(kinds), n_pairs=min(len(pairs), 6), n_inits=sum(1 for k in kinds if k not in ("plain", "free")),
              permutes=moved >= 2, shared_tensor=len([t for t in const_of if t is not None]) > len(tlist),
              frozen_tensor=bool(frozen), rollback=bool(raised == "RuntimeError"), scalar_args=bool(c.get("scalar")),
-             free_value="free" in kinds)
+             free_value="free" in kinds,
+             # a LATER pair whose refusing tensor already carries the target while its value does not (out of sync)
+             desync_frozen_target=any(k > 0 and const_of[i] is not None and const_of[i] in frozen
+                                      and before["tnames"][const_of[i]] == t and before["vnames"][i] != t
+                                      for k, (i, t) in enumerate(pairs)),
+             desync_tensor=any(ct is not None and before["tnames"][ct] != before["vnames"][i] for i, ct in enumerate(const_of)))
     for sig, what in fails:
         ctx.fail(sig, what, case)
     model = {k: out.get(k) for k in ("vnames", "initOf", "dicts", "tnames", "raised")}
@@ -1548,7 +1738,7 @@ def _check_rename_case(ctx, ir, c, origin, out):
 
 def _rename_request(ir, c):
     kinds, names = c["kinds"], c["names"]
-    _, _, tlist, const_of, frozen = _rename_world(ir, kinds, names, c.get("tensors"), c.get("frozen", ()))
+    _, _, tlist, const_of, frozen = _rename_world(ir, kinds, names, c.get("tensors"), c.get("frozen", ()), c.get("tnames"))
     init_of = [None if k in ("plain", "free") else (1 if k == "init1" else 0) for k in kinds]
     dicts = [[[n, i] for i, (k, n) in enumerate(zip(kinds, names)) if k in ("init0", "input+init0")],
              [[n, i] for i, (k, n) in enumerate(zip(kinds, names)) if k == "init1"]]
@@ -1579,6 +1769,13 @@ FLOORS = {
     "x_refines_checked": 200,
     "part=rename": 15000, "rollback=True": 30, "shared_tensor=True": 300, "scalar_args=True": 100, "free_value=True": 500,
     "permutes=True": 2000, "raised=True": 3000, "raised=False": 3000,
+    # two or more top-level scopes needing fixes, incl. >= 2 functions (the model says so); a later function needing
+    # a fix after an earlier scope did
+    "scopes_fixed=3": 30, "funcs_fixed=2": 30, "later_func_fixed=True": 60, "origin=multi-scope": 60,
+    # rename sets with a later value whose read-only tensor already carries the target name
+    "desync_frozen_target=True": 250, "desync_tensor=True": 600,
+    # C15_gen_post: hypotheses hold, custom generator
+    "x_gen_post_hyp=True": 400, "x_gen_post_custom": 200, "namefix_illscoped_nodes_hyp=True": 100,
 }
 
 
